@@ -237,4 +237,135 @@ theorem sintercard_limit_greedy_witness :
     sintercardShape (parseCmdQ Quirks.none (sb "SINTERCARD")
         [sb "4", sb "k", sb "k", sb "limit", sb "1"]) = some (4, 4, 0) := by
   decide +kernel
+
+/-! ### a set is a set: SADD / SREM as operations on membership, for every argument list -/
+
+/-- after SADD the members are exactly the old ones and the added ones -/
+theorem saddAll_mem (ms : List Bytes) : ∀ (s : List Bytes) (n : Nat) (x : Bytes),
+    x ∈ (saddAll ms s n).1 ↔ x ∈ s ∨ x ∈ ms := by
+  induction ms with
+  | nil => intro s n x; simp [saddAll]
+  | cons m r ih =>
+    intro s n x
+    unfold saddAll
+    split
+    · rename_i hc
+      rw [ih]
+      have hm : m ∈ s := by simpa using hc
+      constructor
+      · rintro (h | h)
+        · exact Or.inl h
+        · exact Or.inr (List.mem_cons_of_mem _ h)
+      · rintro (h | h)
+        · exact Or.inl h
+        · rcases List.mem_cons.mp h with e | e
+          · subst e; exact Or.inl hm
+          · exact Or.inr e
+    · rw [ih]
+      simp only [List.mem_append, List.mem_cons, List.not_mem_nil, or_false]
+      constructor
+      · rintro ((h | h) | h)
+        · exact Or.inl h
+        · exact Or.inr (Or.inl h)
+        · exact Or.inr (Or.inr h)
+      · rintro (h | h | h)
+        · exact Or.inl (Or.inl h)
+        · exact Or.inl (Or.inr h)
+        · exact Or.inr h
+
+/-- no member is ever held twice -/
+theorem saddAll_nodup (ms : List Bytes) : ∀ (s : List Bytes) (n : Nat), s.Nodup → (saddAll ms s n).1.Nodup := by
+  induction ms with
+  | nil => intro s n h; exact h
+  | cons m r ih =>
+    intro s n h
+    unfold saddAll
+    split
+    · exact ih s n h
+    · rename_i hc
+      apply ih
+      have hm : m ∉ s := by simpa using hc
+      rw [List.nodup_append]
+      refine ⟨h, by simp, ?_⟩
+      intro a ha b hb
+      simp at hb
+      subst hb
+      intro e
+      subst e
+      exact hm ha
+
+/-- the reply of SADD is the number of members that were really added -/
+theorem saddAll_count (ms : List Bytes) : ∀ (s : List Bytes) (n : Nat),
+    (saddAll ms s n).2 + s.length = n + (saddAll ms s n).1.length := by
+  induction ms with
+  | nil => intro s n; simp [saddAll]
+  | cons m r ih =>
+    intro s n
+    unfold saddAll
+    split
+    · exact ih s n
+    · have := ih (s ++ [m]) (n + 1)
+      simp only [List.length_append, List.length_singleton] at this
+      omega
+
+/-- after SREM the members are exactly the old ones that were not named -/
+theorem sremAll_mem (ms : List Bytes) : ∀ (s : List Bytes) (n : Nat) (x : Bytes), s.Nodup →
+    (x ∈ (sremAll ms s n).1 ↔ x ∈ s ∧ x ∉ ms) := by
+  induction ms with
+  | nil => intro s n x _; simp [sremAll]
+  | cons m r ih =>
+    intro s n x hn
+    unfold sremAll
+    split
+    · rename_i he
+      have : s = [] := by simpa using he
+      subst this
+      simp
+    · split
+      · rename_i hc
+        rw [ih _ _ _ (hn.erase m)]
+        rw [hn.mem_erase_iff]
+        simp only [List.mem_cons, not_or]
+        constructor
+        · rintro ⟨⟨h1, h2⟩, h3⟩; exact ⟨h2, h1, h3⟩
+        · rintro ⟨h1, h2, h3⟩; exact ⟨⟨h2, h1⟩, h3⟩
+      · rename_i hc
+        have hm : m ∉ s := by simpa using hc
+        rw [ih _ _ _ hn]
+        simp only [List.mem_cons, not_or]
+        constructor
+        · rintro ⟨h1, h2⟩; exact ⟨h1, fun e => hm (e ▸ h1), h2⟩
+        · rintro ⟨h1, _, h3⟩; exact ⟨h1, h3⟩
+
+theorem sremAll_nodup (ms : List Bytes) : ∀ (s : List Bytes) (n : Nat), s.Nodup → (sremAll ms s n).1.Nodup := by
+  induction ms with
+  | nil => intro s n h; exact h
+  | cons m r ih =>
+    intro s n h
+    unfold sremAll
+    split
+    · exact h
+    · split
+      · exact ih _ _ (h.erase m)
+      · exact ih _ _ h
+
+/-- the reply of SREM is the number of members that were really removed -/
+theorem sremAll_count (ms : List Bytes) : ∀ (s : List Bytes) (n : Nat),
+    (sremAll ms s n).2 + (sremAll ms s n).1.length = n + s.length := by
+  induction ms with
+  | nil => intro s n; simp [sremAll]
+  | cons m r ih =>
+    intro s n
+    unfold sremAll
+    split
+    · rfl
+    · split
+      · rename_i hc
+        have hm : m ∈ s := by simpa using hc
+        have := ih (s.erase m) (n + 1)
+        rw [List.length_erase_of_mem hm] at this
+        have hp : 0 < s.length := List.length_pos_of_mem hm
+        omega
+      · exact ih s n
+
 end RedisEmu
